@@ -326,27 +326,27 @@ class Session:
                 "wildcards_expanded_by_second_call": late, "late_sources": {k: snap1[k][1] for k in late}, "newly_loaded": newly,
                 "step_index": self.step_index, "first_call": {"unresolved": sorted(unresolved1), "iterations": it1},
             }
+            diff = sorted(k for k in set(snap1) | set(snap2) if snap1.get(k) != snap2.get(k))
+            # copies of wildcard placeholders: members named '.../*' whose target is itself a placeholder member
+            leaked = [x for x in diff if x.endswith("/*") and any("/*" in s[1] for s in (snap1.get(x), snap2.get(x)) if s)]
+            detail["changed"] = diff[:20]
+            detail["leaked_placeholders"] = leaked[:20]
+            suffix = ":late-wildcard-expansion" if late else ":leaked-placeholder" if leaked else ""
+            note = (f"; wildcard imports expanded only by the second call: {late}" if late else "") + (
+                f"; placeholder copies wrapped again by the second call: {leaked[:3]}" if leaked and not late else ""
+            )
             if unresolved1 != unresolved2:
                 fails.append(
-                    Fail("fixpoint", "unresolved-set-differs" + (":late-wildcard-expansion" if late else ""),
-                         f"{what}: first call left {sorted(unresolved1)}, an immediate second call left {sorted(unresolved2)}", detail)
+                    Fail("fixpoint", "unresolved-set-differs" + suffix,
+                         f"{what}: first call left {sorted(unresolved1)}, an immediate second call left {sorted(unresolved2)}" + note, detail)
                 )
             elif mods1 != mods2:
-                fails.append(
-                    Fail("fixpoint", "loads-more-modules" + (":late-wildcard-expansion" if late else ""),
-                         f"second {what} loaded {sorted(set(mods2) - set(mods1))}" + (f"; wildcard imports expanded only by the second call: {late}" if late else ""), detail)
-                )
+                fails.append(Fail("fixpoint", "loads-more-modules" + suffix, f"second {what} loaded {sorted(set(mods2) - set(mods1))}" + note, detail))
             elif snap1 != snap2:
-                diff = sorted(k for k in set(snap1) | set(snap2) if snap1.get(k) != snap2.get(k))
                 k = diff[0]
-                detail["changed"] = diff[:20]
-                # copies of wildcard placeholders: members named '.../*' whose target is itself a placeholder member
-                leaked = [x for x in diff if x.endswith("/*") and any("/*" in s[1] for s in (snap1.get(x), snap2.get(x)) if s)]
-                detail["leaked_placeholders"] = leaked[:20]
                 fails.append(
-                    Fail("fixpoint", "alias-state-changes" + (":late-wildcard-expansion" if late else ":leaked-placeholder" if leaked else ""),
-                         f"second {what} changed {len(diff)} alias(es), e.g. {k}: {snap1.get(k)} -> {snap2.get(k)}"
-                         + (f"; wildcard imports expanded only by the second call: {late}" if late else ""), detail)
+                    Fail("fixpoint", "alias-state-changes" + suffix,
+                         f"second {what} changed {len(diff)} alias(es), e.g. {k}: {snap1.get(k)} -> {snap2.get(k)}" + note, detail)
                 )
             if unresolved1:
                 self.classes["obs:unresolved-after-resolve"] += 1
@@ -476,8 +476,8 @@ def _is_wildcard_born(case, fail: Fail) -> bool:
 def _is_late_expansion(case, fail: Fail) -> bool:
     """fixpoint fails and the second resolve_aliases call expanded a wildcard import that the first call had left in
     place, *and* the source of every such wildcard could not be looked up when the first call started: the same
-    history is re-run in a fresh loader up to the failing step and `collection.get_member(<source path>)` must raise
-    there (the source module is only provided by another expansion, or its package is only loaded during the first
+    history is re-run in a fresh loader up to the failing step and `collection.get_member(<source path>)`, followed
+    by `.final_target` if that is an alias, must raise there (the source module is only provided by another expansion, or its package is only loaded during the first
     call).  Wildcard expansion is one pass at the start of resolve_aliases, not part of the iteration.
     A wildcard whose source can be looked up at that moment (a module, or an alias to a module) is expanded by the first
     call on the pinned tree; if it is only expanded by the second call, that is not this finding."""
@@ -495,10 +495,14 @@ def _is_late_expansion(case, fail: Fail) -> bool:
             if session.step(step):
                 return False
         collection = session.loader.modules_collection
-        for source in sources.values():
+        for placeholder, source in sources.items():
+            if placeholder.split(".")[0] not in collection.members:
+                continue  # the importing package itself was only loaded during the first call
             try:
                 with time_limit(CALL_BUDGET_S):
-                    collection.get_member(source)
+                    found = collection.get_member(source)
+                    if found.is_alias:
+                        found.final_target  # noqa: B018  (an alias to a module whose package is not loaded yet does not count)
             except (KeyError, *session.allowed):
                 continue
             except (Exception, CaseTimeout):  # noqa: BLE001
@@ -510,10 +514,10 @@ def _is_late_expansion(case, fail: Fail) -> bool:
 
 
 def _is_placeholder_leak(case, fail: Fail) -> bool:
-    """fixpoint fails (same unresolved set, same modules) and among the aliases whose state changed there is a copy of
+    """fixpoint fails and among the aliases whose state changed there is a copy of
     a wildcard placeholder: a member named '.../*' whose target path is itself a placeholder member ('pkg.mod.x/y/*')."""
     d = fail.detail or {}
-    return fail.clause == "fixpoint" and fail.kind == "alias-state-changes:leaked-placeholder" and bool(d.get("leaked_placeholders"))
+    return fail.clause == "fixpoint" and fail.kind.endswith(":leaked-placeholder") and bool(d.get("leaked_placeholders"))
 
 
 def _is_set_rule_stop(case, fail: Fail) -> bool:
